@@ -133,7 +133,7 @@ let eval_e2e fs =
   let blobs = parse_blobs (get fs "blobs") in
   let v = get fs "v" in
   let log = parse_records (get fs "log") in
-  let cfg = { c_max_attempts = z_of_int 3; c_oor_error = false; c_fetch_v5 = (v <> "2") } in
+  let cfg = { c_max_attempts = z_of_int 3; c_oor_error = false; c_fetch_v5 = (v <> "2") && (List.assoc_opt "f2fixed" fs <> Some "1") } in
   let run = fetch_run (decomp_of blobs) big_fuel in
   let st = ref r_init in
   let delivered = ref [] in          (* model's returns, newest first *)
